@@ -22,7 +22,8 @@ V4Cols == AllStyleCols \ {"Underline", "Strikeout", "ScaleX", "ScaleY", "Spacing
 
 Line1(rs) == <<rs>>
 R(a, fx) == [a |-> a, fx |-> fx]
-Texts == {<<<<R(1, 0)>>>>, <<<<R(1, 1)>>>>, <<<<R(1, 0), R(2, 1)>>>>, <<<<R(1, 1), R(2, 2)>>>>, <<<<R(1, 0)>>, <<R(2, 0)>>>>, <<<<R(3, 0)>>>>}
+Texts == {<<<<R(1, 0)>>>>, <<<<R(1, 1)>>>>, <<<<R(1, 0), R(2, 1)>>>>, <<<<R(1, 1), R(2, 2)>>>>, <<<<R(1, 0)>>, <<R(2, 0)>>>>, <<<<R(3, 0)>>>>,
+          <<<<R(1, 0)>>, <<R(2, 1)>>, <<R(3, 0)>>>>}
 Ev(s, e, cols, lines) == [s |-> s, e |-> e, cols |-> cols, lines |-> lines]
 EmptyF == [x \in {} |-> 0]
 Base(plus) == [plus |-> plus, info |-> EmptyF, notes |-> <<>>, styles |-> <<>>, events |-> <<>>]
@@ -57,7 +58,7 @@ TruthsF == {[plus |-> plus, info |-> inf, notes |-> nt,
 Truths(fam) == CASE fam = "S" -> TruthsS [] fam = "E" -> TruthsE [] fam = "F" -> TruthsF
 BaseV == [eols |-> {"lf"}, boms |-> {FALSE}, radix |-> {"dec"}, nls |-> {"N"}, stars |-> {FALSE}, noise |-> FALSE]
 Vars(fam) == CASE fam = "S" -> [BaseV EXCEPT !.radix = {"dec", "hex"}]
-               [] fam = "E" -> [BaseV EXCEPT !.nls = {"N", "n"}, !.stars = BOOLEAN]
+               [] fam = "E" -> [BaseV EXCEPT !.nls = {"N", "n", "mix"}, !.stars = BOOLEAN]
                [] fam = "F" -> [BaseV EXCEPT !.eols = {"lf", "crlf", "cr"}, !.boms = BOOLEAN, !.radix = {"dec", "hex"}, !.noise = TRUE]
 SP(fam, G) == IF G.styles = <<>> THEN {<<>>} ELSE IF fam = "S" THEN Perms(StyleCols(G)) ELSE IF fam = "E" THEN {SetToSeq(StyleCols(G))} ELSE ThreeOrders(StyleCols(G))
 EP(fam, G) == IF fam = "E" THEN Perms(EventCols(G)) ELSE IF fam = "S" THEN {SetToSeq(EventCols(G))} ELSE ThreeOrders(EventCols(G))
